@@ -630,6 +630,15 @@ func init() {
 			}
 			return tuple{iface{}, fr.i.mkError("lstat: no such file or directory")}
 		},
+		"os.Stat": func(fr *frame, a []value) value {
+			if r, ok := fr.i.fsCall("Stat", a[0]); ok {
+				t := r.(tuple)
+				if fr.i.decide(t[1]) {
+					return tuple{t[0], nilErr()}
+				}
+			}
+			return tuple{iface{}, fr.i.mkError("stat: no such file or directory")}
+		},
 		"os.Open": func(fr *frame, a []value) value {
 			if r, ok := fr.i.fsCall("ReadDir", a[0]); ok {
 				t := r.(tuple)
